@@ -51,6 +51,6 @@ m = {"version": 1, "setup_cmd": "/verif/scripts/setup.sh",
                  {"name": "hcl", "path": "harness/hcl", "serves_properties": [c for c in claimed if c > "C12"], "kind_free_text": "Rust harness for CL03 (feature cl03 through the GMP shim): tapes, oracles, line protocol"}],
      "checks": [chk(p) for p in claimed],
      "not_applicable": [{"property_id": p["id"], "reason": "check under construction (CL03 model and harness are being built); not yet claimed"} for p in props if p["id"] not in claimed],
-     "notes": "See DESIGN.md. known_findings.json lists fixed defects (F1-F15) and any known finding; theorems.json is the registry of property theorems audited per check."}
+     "notes": "See DESIGN.md (Appendix C.7 for the latest session). known_findings.json lists the repaired defects F1-F15 (status fixed: they suppress nothing) and the known findings F16-F22 (C16, C15, C14: group elements of CL03 range / signature / issuance proofs replaced by their negatives modulo N are accepted; protocol-inherent, no small repair): the C16, C15 and C14 checks print one KNOWN-FINDING line per listed class and exit 0, and report any other accepted negation as a violation. theorems.json is the registry of the 1221 property theorems audited per check."}
 json.dump(m, open("/verif/MANIFEST.json", "w"), indent=1)
 print("claimed", claimed)
